@@ -1397,6 +1397,13 @@ fn MakeUncompressedStream(input: &[u8], input_size: usize, output: &mut [u8]) ->
     result
 }
 
+/// Verification hook (only with `--cfg brotli_verif`): the stored-stream fallback of
+/// `encoder_compress` is private and only reached when compression fails.
+#[cfg(brotli_verif)]
+pub fn verif_make_uncompressed_stream(input: &[u8], output: &mut [u8]) -> usize {
+    MakeUncompressedStream(input, input.len(), output)
+}
+
 #[deprecated(note = "Use encoder_compress instead")]
 pub fn BrotliEncoderCompress<
     Alloc: BrotliAlloc,
